@@ -19,6 +19,15 @@ pub struct GenericLightGraph<TI: TermIndex> {
     triples: BTreeSet<[TI::Index; 3]>,
 }
 
+/// Verification hook: read-only access to the term index.
+#[cfg(feature = "sophia_verif")]
+impl<TI: TermIndex> GenericLightGraph<TI> {
+    /// The term index of this store.
+    pub fn verif_index(&self) -> &TI {
+        &self.terms
+    }
+}
+
 impl<TI: TermIndex + Default> GenericLightGraph<TI> {
     /// Construct an empty graph
     pub fn new() -> Self {
@@ -153,6 +162,15 @@ pub struct GenericFastGraph<TI: TermIndex> {
     spo: BTreeSet<[TI::Index; 3]>,
     pos: BTreeSet<[TI::Index; 3]>,
     osp: BTreeSet<[TI::Index; 3]>,
+}
+
+/// Verification hook: read-only access to the term index.
+#[cfg(feature = "sophia_verif")]
+impl<TI: TermIndex> GenericFastGraph<TI> {
+    /// The term index of this store.
+    pub fn verif_index(&self) -> &TI {
+        &self.terms
+    }
 }
 
 impl<TI: TermIndex + Default> GenericFastGraph<TI> {
